@@ -164,6 +164,26 @@ class Judge:
     def wants(self, info):
         return info.cls == "valid"
 
+    def semantics(self, ld, ad, env, obj, val, ctx):
+        from .c03 import compare
+
+        p = ld.program
+        for entry in (False, True):
+            exp = ref_serialize(env, p.node, val, entry)
+            if exp[0] != "bytes":
+                continue
+            got = real_serialize(ld.cls, obj, entry)
+            ctx.counts["evaluations"] += 1
+            if got[0] != "bytes" or got[1] != exp[1]:
+                shown = got[1].hex() if got[0] == "bytes" else f"{got[1]}: {got[2]}"
+                return f"entry sanitisation {entry}: serialized {shown}, the XML prescribes {exp[1].hex()} (a section is sanitised where it should not be, or the reverse)"
+            for chunked in (False, True):
+                what = compare(ld, ad, env, exp[1], chunked, 0)
+                ctx.counts["evaluations"] += 1
+                if what and what != "skip":
+                    return f"entry chunked mode {chunked}, bytes {exp[1].hex()}: {what}"
+        return None
+
     def judge(self, ctx, ld, info):
         p = ld.program
         if ld.cls is None:
@@ -180,6 +200,16 @@ class Judge:
             except Exception:  # noqa: BLE001
                 continue
             nv += 1
+            # fault-free runs must also produce what the XML prescribes under that entry mode: this is what shows
+            # that a nested structure is sanitised / chunk-read exactly where the XML says (and vice versa)
+            what = self.semantics(ld, ad, env, obj, val, ctx)
+            if what:
+                ctx.violation(
+                    f"mode-semantics:{info.ident}",
+                    f"{info.host} [{info.ident}] value {val!r}: {what}",
+                    {"tier": ctx.tier, "index": info.index, "value": _enc(val), "kind": "semantics"},
+                )
+                return
             where, what = explore_instance(ad, ld, obj, ctx.counts)
             if what:
                 ctx.violation(
@@ -258,6 +288,11 @@ def _replay_single(case):
     if case["kind"] == "hostile":
         return de_with_fault(ld.cls, bytes(case["data"]), bool(case["entry"]), 0)[1]
     obj = ad.build(ld.cls, p.node, _dec(case["value"]))
+    if case["kind"] == "semantics":
+        import collections as _c
+
+        ctx = e3.Ctx(case["tier"], 0)
+        return Judge().semantics(ld, ad, p.env(), obj, _dec(case["value"]), ctx)
     if case["kind"] == "invalid":
         for entry in (False, True):
             what = ser_with_fault(ld.cls, obj, entry, 0)[1]
